@@ -221,7 +221,7 @@ func reflectStruct(rv reflect.Value, val any, opt *Options) any {
 	for _, fi := range fields {
 		if v, fv, omit := fi.value(fi, rv, addr); !omit {
 			if fv.IsValid() {
-				if opt.NestEmbed && fv.Kind() == reflect.Struct {
+				if _, isTime := v.(time.Time); opt.NestEmbed && fv.Kind() == reflect.Struct && !isTime {
 					v = reflectEmbed(fv, v, opt)
 				} else {
 					v = decompose(v, opt)
@@ -248,7 +248,7 @@ func reflectEmbed(rv reflect.Value, val any, opt *Options) any {
 	for _, fi := range fields {
 		if v, fv, omit := fi.ivalue(fi, rv, 0); !omit {
 			if fv.IsValid() {
-				if opt.NestEmbed && fv.Kind() == reflect.Struct {
+				if _, isTime := v.(time.Time); opt.NestEmbed && fv.Kind() == reflect.Struct && !isTime {
 					v = reflectEmbed(fv, v, opt)
 				} else {
 					v = decompose(v, opt)
